@@ -23,6 +23,7 @@
 //!               {"k":"not","d","a"}  {"k":"isp","d","ty":type,"a"}  {"k":"idx","d","p":e,"i":field}
 //!               {"k":"call","f":callee,"as":[e..],"d":slot|0}
 //!                   callee {"k":"fn","i":function number} | {"k":"bi","n":"__Process$println"} | {"k":"var","i":slot}
+//!                          | {"k":"missing","n":name}  (a function that no build of the program defines)
 //!               {"k":"if","c":e,"s1":[..],"s2":[..],"fa":[{"d","a","b"}..]}
 //!               {"k":"sif","c":e,"inv":bool,"s":[..]}  {"k":"brk","a":e}
 //!               {"k":"while","lv":[{"d","a":initial,"b":loop value}..],"s":[..],"bc":slot|0}
@@ -262,9 +263,15 @@ impl<'a> FnDumper<'a> {
         let f = match callee {
           mir::Callee::FunctionName(f) => {
             let n = fname(self.b, &f.name);
+            let runtime = f.name.type_name == mir::TypeNameId::PROCESS
+              || f.name.type_name == mir::TypeNameId::STR
+              || f.name.type_name == mir::TypeNameId::VEC;
             match self.numbers.get(&n) {
-              Some(i) if self.b.by_name.contains_key(&n) => json!({"k": "fn", "i": i}),
-              _ => json!({"k": "bi", "n": n}),
+              // defined in this build, or in another build of the program (then absent here: fns[i] = 0)
+              Some(i) => json!({"k": "fn", "i": i}),
+              None if runtime => json!({"k": "bi", "n": n}),
+              // a call of a function no build defines: the MIR itself is malformed
+              None => json!({"k": "missing", "n": n}),
             }
           }
           mir::Callee::Variable(v) => json!({"k": "var", "i": self.slot(v.name)}),
